@@ -66,9 +66,9 @@ def Family.unitName (f : Family) (ks : List Nat) : String :=
 /-- the decidable comparison of one expression with its specification -/
 def Family.leafOK (f : Family) (ks : List Nat) (j : Nat) (e s : E) : Bool :=
   match f.kind with
-  | .poly => polyEq e s
+  | .poly => e == s || polyEq e s          -- literal equality first: cheap when the spec mirrors the code
   | .syn => e == s
-  | .frac => fracEq e s && e.divisors.all (divisorAllowed (f.allowed ks)) && s.divisors.all (divisorAllowed (f.allowed ks))
+  | .frac => (e == s || fracEq e s) && e.divisors.all (divisorAllowed (f.allowed ks)) && s.divisors.all (divisorAllowed (f.allowed ks))
   | .polyMod => polyEqMod (f.hyps ks) (f.cert ks j) e s
   | .fracMod => fracEqMod (f.hyps ks) (f.cert ks j) e s && e.divisors.all (divisorAllowed (f.allowed ks))
       && s.divisors.all (divisorAllowed (f.allowed ks))
@@ -90,6 +90,12 @@ def Family.okAt (f : Family) (look : String → List Nat → Unit) (ks : List Na
 
 /-- every unit of the family meets the family's specification -/
 def Family.ok (f : Family) (look : String → List Nat → Unit) : Bool := f.keys.all (f.okAt look)
+
+/-- the table check only looks at the units named `f.unit` -/
+theorem Family.ok_congr (f : Family) {l1 l2 : String → List Nat → Unit}
+    (h : ∀ ks, l1 f.unit ks = l2 f.unit ks) : f.ok l1 = f.ok l2 := by
+  have : f.okAt l1 = f.okAt l2 := by funext ks; unfold Family.okAt; rw [h ks]
+  unfold Family.ok; rw [this]
 
 def findFam (fs : List Family) (n : String) : Family := (fs.find? (·.name == n)).getD default
 
